@@ -210,6 +210,74 @@ def h_jumptimes(ctx, ndates, pmax=2):
     path_value_obligations(ctx, path, info)
 
 
+# ---- Markov-chain simulator at jump times
+
+
+class ChainProcessStub:
+    """what MCSimulationWithJumpTimes reads of its process: grid, sampling.sample, nb_jump_dt, jump_times_from_nb_of_jumps"""
+
+    def __init__(self, grid, counts, increments, times_of):
+        self.grid = grid
+        self._counts, self._incs, self._times_of = list(counts), list(increments), times_of
+        self.served = 0
+
+        class _S:
+            def sample(_self, size=1):
+                out = self._incs[self.served:self.served + int(size)]
+                self.served += int(size)
+                return np.array(out, dtype=int)
+
+        self.sampling = _S()
+
+    def nb_jump_dt(self, dt):
+        return self._counts.pop(0)
+
+    def jump_times_from_nb_of_jumps(self, dt, n):
+        return self._times_of(dt, int(n))
+
+
+def replay_chain_jumptimes(sc):
+    """the real chain simulator at jump times, scripted jump counts per product-date interval and scripted state increments: the jump part
+    of the path is the running sum of the states' values over the whole path"""
+    import rpylib.grid.spatial as GS
+
+    counts, incs = [int(c) for c in sc["counts"]], [int(i) for i in sc["incs"]]
+    axis = np.array([-2.0, -1.0, 0.0, 1.0, 2.0]) * 0.1
+    grid = GS.CTMCGrid(h=0.1, origin_coordinate=2, axes=[axis])
+    nd = len(counts)
+    times = np.linspace(0.0, float(nd), nd + 1)
+    proc = ChainProcessStub(grid, counts, incs, lambda dt, n: dt * (np.arange(n) + 1.0) / (n + 1.0))
+    sim = MC.MCSimulationWithJumpTimes(proc)
+    sim.pre_computation(1, StubProduct(times, PayoffDates.STOCHASTIC))
+    jt, jv = sim.simulate_jumps()
+    want = np.cumsum([axis[2 + i] for i in incs]) if incs else np.array([])
+    bad = len(jv) != len(want) or not np.allclose(np.asarray(jv, dtype=float), want, atol=1e-12)
+    return bad, (f"MCSimulationWithJumpTimes, jump counts per product-date interval {counts}, state increments {incs} on the axis {axis.tolist()}: jump part "
+                 f"{np.round(np.asarray(jv, dtype=float), 6).tolist()}, running sum of the increments {np.round(want, 6).tolist()}")
+
+
+def h_chain_jumptimes(ctx, ndates):
+    """Markov-chain simulator at jump times over `ndates` product-date intervals, symbolic jump counts (0..2 per interval): the jump part is
+    the running sum of the visited states' values over the whole path, one sampled increment per jump"""
+    import rpylib.grid.spatial as GS
+
+    axis = np.array([-2.0, -1.0, 0.0, 1.0, 2.0]) * 0.1
+    grid = GS.CTMCGrid(h=0.1, origin_coordinate=2, axes=[axis])
+    counts = [ctx.int(f"count{k}", 0, 2).__index__() for k in range(ndates)]
+    incs = [1, -2, 2, -1, 1, 2][: sum(counts)]
+    times = np.linspace(0.0, float(ndates), ndates + 1)
+    proc = ChainProcessStub(grid, counts, incs, lambda dt, n: dt * (np.arange(n) + 1.0) / (n + 1.0))
+    sim = MC.MCSimulationWithJumpTimes(proc)
+    sim.pre_computation(1, StubProduct(times, PayoffDates.STOCHASTIC))
+    jt, jv = sim.simulate_jumps()
+    want = np.cumsum([axis[2 + i] for i in incs]) if incs else np.array([])
+    several = sum(1 for c in counts if c > 0) > 1
+    ok = len(jv) == len(want) and bool(np.allclose(np.asarray(jv, dtype=float), want, atol=1e-12))
+    ctx.prove("C15.chain.jumptimes.jump_component_is_running_sum_over_the_whole_path", ok, info={"counts": counts, "increments": incs},
+              replay=(replay_chain_jumptimes, lambda m: {"counts": counts, "incs": incs}), regions={"jumps_in_more_than_one_product_date_interval": several})
+    ctx.prove("C15.chain.jumptimes.one_sampled_increment_per_jump", proc.served == sum(counts) and len(jt) == sum(counts), info={"counts": counts})
+
+
 # ---- epsilon refinement
 
 
@@ -424,6 +492,8 @@ def harnesses(tier):
     hs = [Harness("concrete", concrete_validation, concrete=True)]
     for nd in ((1, 2) if q else (1, 2, 3)):
         hs.append(Harness(f"fixed.{nd}", h_fixed, {"ndates": nd}, max_paths=4000, batch=20))
+    for nd in (1, 2) if q else (1, 2, 3):
+        hs.append(Harness(f"chain.jumptimes.{nd}", h_chain_jumptimes, {"ndates": nd}, max_paths=2000, batch=20))
     for nd, pm in (((1, 2), (2, 2)) if q else ((1, 2), (2, 2), (1, 4), (3, 1))):
         hs.append(Harness(f"jumptimes.{nd}.p{pm}", h_jumptimes, {"ndates": nd, "pmax": pm}, max_paths=20000, batch=20))
     for which in ("levyprocess", "coupling"):
@@ -442,7 +512,8 @@ def harnesses(tier):
 EXPECT = ["C15.maxstep.every_component_of_an_inserted_point_repeats_its_own_predecessor", "C15.fixed.jump_component_is_running_sum_of_increments", "C15.fixed.diffusion_component_is_running_sum_of_scaled_normals", "C15.jumptimes.times_non_decreasing",
           "C15.jumptimes.jump_component_is_running_sum", "C15.jumptimes.diffusion_component_is_running_sum_of_scaled_normals", "C15.maxstep.every_step_at_most_epsilon",
           "C15.maxstep.values_kept_and_inserted_points_repeat_predecessor", "C15.maxstep.returned_path_respects_the_cap",
-          "C15.path_value_is_jump_plus_diffusion_each_time_it_is_read", "C15.reading_the_path_value_leaves_its_components_unchanged"]
+          "C15.path_value_is_jump_plus_diffusion_each_time_it_is_read", "C15.reading_the_path_value_leaves_its_components_unchanged",
+          "C15.chain.jumptimes.jump_component_is_running_sum_over_the_whole_path", "C15.chain.jumptimes.one_sampled_increment_per_jump"]
 
 
 def main(tier):
